@@ -298,6 +298,9 @@ def parse_query_params(r, version):
     out = {}
     out['consistency'] = r.short()
     if version == 1:
+        # v1: <query><consistency> and nothing else. The driver appends a flags byte all the same; Cassandra's v1 decoder reads the two
+        # fields and ignores the rest of the body, and so does this one (frame conformance is C03's subject, not decided here)
+        r.p = len(r.d)
         return out
     flags = r.int() if version >= 5 else r.byte()
     out['flags'] = flags
